@@ -44,6 +44,10 @@ FF = ['function', 'ff', [], False, False,
 GG = ['function', 'gg', ['p'], False, False,
       [['jump', 'L2', ['var', 'p']], ['return', ['str', 'gg']]]]
 
+# a function whose body STARTS with a label and loops back to it (a taken jump to the first statement of a list)
+HH = ['function', 'hh', ['q'], False, False,
+      [['label', 'T'], ['expr', 'q', ['bin', '+', ['var', 'q'], num(1)]], ['jump', 'T', ['bin', '<', ['var', 'q'], num(3)]], ['return', ['var', 'q']]]]
+
 ALPHABET = [
     LOG('a'),
     ['expr', 'x', ['bin', '+', ['var', 'x'], num(1)]],
@@ -58,7 +62,9 @@ ALPHABET = [
     ['expr', 'y', ['call', 'ff', []]],
     ['expr', None, ['call', 'gg', [X_LT(1)]]],
     ['expr', 'y', ['call', 'gg', [['var', 'y']]]],
+    ['expr', 'y', ['call', 'hh', [num(0)]]],
 ]
+CALLS = (10, 11, 12, 13)
 
 
 def random_model(r):
@@ -80,11 +86,11 @@ def random_model(r):
         elif c < 0.93:
             body.append(['return', ['var', 'x']] if r.random() < 0.7 else ['return', None])
         else:
-            body.append(['expr', 'y', ['call', r.choice(['ff', 'gg', 'hh']), [['var', 'x']]]])
-    fns = [FF, GG]
+            body.append(['expr', 'y', ['call', r.choice(['ff', 'gg', 'hh2']), [['var', 'x']]]])
+    fns = [FF, GG, HH] if r.random() < 0.7 else []
     if r.random() < 0.5:
         fb = [s for s in (random_model_small(r)) if s[0] != 'function']
-        fns.append(['function', 'hh', ['q'], False, r.random() < 0.3, fb])
+        fns.append(['function', 'hh2', ['q'], False, r.random() < 0.3, fb])
     return fns + body
 
 
@@ -171,7 +177,9 @@ def run(tier):
     maxlen = 4 if tier == 'quick' else 5
     for n in range(0, maxlen + 1):
         for combo in itertools.product(range(len(ALPHABET)), repeat=n):
-            models.append((f'len{n}', [FF, GG] + [ALPHABET[i] for i in combo]))
+            # the functions are only prepended when the list calls one: otherwise a label can be the FIRST statement of the list
+            pre = [FF, GG, HH] if any(i in CALLS for i in combo) else []
+            models.append((f'len{n}', pre + [ALPHABET[i] for i in combo]))
     n_rand = 1500 if tier == 'quick' else 20000
     for _ in range(n_rand):
         models.append(('random', random_model(r)))
@@ -183,7 +191,7 @@ def run(tier):
     nontrivial = set()
     for (tag, m), res in zip(models, impl):
         dist[tag] = dist.get(tag, 0) + 1
-        src = repr(m[2:] if tag != 'random' else m)
+        src = repr(m)
         if 'host' in res:
             chk.oracle_fail.append({'class': 'host-exception', 'model': m, 'got': res})
             continue
@@ -211,7 +219,7 @@ def run(tier):
             chk.oracle_fail.append({'class': 'differs-from-reference-semantics', 'model': m, 'max': mx,
                                     'expected': {k: (v if k != 'globals' else repr(v)) for k, v in exp.items()},
                                     'got': {k: res.get(k) for k in ('res', 'rt', 'log', 'count', 'globals')}})
-        if any(s[0] == 'jump' for s in m[2:]) and any(s[0] == 'label' for s in m[2:]):
+        if any(s[0] == 'jump' for s in m) and any(s[0] == 'label' for s in m):
             nontrivial.add(src)
 
     # ---- correspondence with the Coq model
@@ -254,16 +262,16 @@ def run(tier):
     chk.coverage = {
         'evaluations': len(models),
         'distinct_nontrivial': len(nontrivial),
-        'rule': 'every statement list of length <= %d over the 13-statement alphabet (two one-level functions prepended), plus random models of '
+        'rule': 'every statement list of length <= %d over the 14-statement alphabet (three one-level functions prepended when one is called), plus random models of '
                 '5-40 statements with up to 3 functions; non-trivial = contains at least one jump and one label, distinct by statement list'
                 % maxlen,
         'exhaustive': True,
-        'exhaustive_part': f'all statement lists of length 0..{maxlen} over the alphabet ({sum(13**k for k in range(maxlen + 1))})',
+        'exhaustive_part': f'all statement lists of length 0..{maxlen} over the alphabet ({sum(14**k for k in range(maxlen + 1))})',
         'alphabet': [repr(a) for a in ALPHABET],
         'distribution': dist,
         'correspondence_cases': corr_n,
         'model_declined': declined,
-        'samples': [{'model': models[i][1][2:], 'impl': {k: impl[i].get(k) for k in ('res', 'rt', 'log', 'count')}}
+        'samples': [{'model': models[i][1], 'impl': {k: impl[i].get(k) for k in ('res', 'rt', 'log', 'count')}}
                     for i in (200, 3000, len(models) - 1) if i < len(models)],
     }
     return chk.finish(TRUSTED)
